@@ -1177,6 +1177,50 @@ def rule_r10(rep, program: Program, prop=PROP, rule="R10"):
     return r
 
 
+def rule_r12(rep, program: Program, prop=PROP, rule="R12"):
+    """Copies of a state share cache entries while the flows update the variable arrays in place (`state.pos += ...`).
+    A cached value that is (a view of) a variable array - a user model function may legitimately return its argument or
+    a view of it - is therefore changed in every copy by such an update.  Values must enter the cache through a guard
+    that copies arrays which may share memory with a state variable."""
+    PROP = prop  # noqa: N806
+    r = rep.rule(rule, "every value stored in the state cache by the decorators passes a guard that copies arrays possibly sharing memory with a state variable (user functions may return views of their argument)", floor=2)
+    smod = next(mm for nm, mm in program.modules.items() if nm.split(".")[-1] == "states")
+    guards = set()
+    raw_mod = ast.parse(smod.source)  # the source as written: the normaliser inlines new private helpers
+    for fn in raw_mod.body:
+        if not isinstance(fn, ast.FunctionDef):
+            continue
+        txt = {call_name(c) for c in ast.walk(fn) if isinstance(c, ast.Call)}
+        if txt & {"np.may_share_memory", "np.shares_memory"} and any(isinstance(c, ast.Call) and ((isinstance(c.func, ast.Attribute) and c.func.attr == "copy") or call_name(c) in ("np.array", "np.copy")) for c in ast.walk(fn)):
+            guards.add(fn.name)
+    r.inst({"aliasing guards in states.py": sorted(guards)})
+    for dname in ("cache_in_state", "cache_in_state_with_aux"):
+        d = program.func("states", dname)
+        raw = ast.parse(smod.source)
+        dn = next(n for n in ast.walk(raw) if isinstance(n, ast.FunctionDef) and n.name == dname)
+        stores = []
+        for n in ast.walk(dn):
+            if isinstance(n, ast.Assign) and any(isinstance(t, ast.Subscript) and norm(t.value).endswith("._cache") for t in n.targets):
+                stores.append((n, n.value))
+            if isinstance(n, ast.Expr) and isinstance(n.value, ast.Call) and isinstance(n.value.func, ast.Attribute) and n.value.func.attr in ("update", "setdefault") and norm(n.value.func.value).endswith("._cache"):
+                stores.append((n, n.value))
+        n_ok = 0
+        for st, v in stores:
+            if isinstance(v, ast.Constant) and v.value is None:
+                continue
+            guarded = any(isinstance(c, ast.Call) and call_name(c).split(".")[-1] in guards for c in ast.walk(v))
+            # inline guard: the store itself is conditional on a may_share_memory test handled in place
+            inline = any(isinstance(c, ast.Call) and call_name(c) in ("np.may_share_memory", "np.shares_memory") for c in ast.walk(dn)) and not guards
+            r.inst({"decorator": dname, "store": norm(st)[:70], "guarded": guarded or inline})
+            if guarded or inline:
+                n_ok += 1
+                continue
+            r.violate(PROP, f"{dname}.wrapper:cache-store-may-alias-variable:{norm(st)[:40]}", f"`{norm(st)[:70]}` stores the wrapped method's value as it is: when a (user supplied) function returns its argument or a view of it - `jacob_constr=lambda q: q[None]`, `grad_neg_log_dens=lambda q: q` - the cached value aliases the state's position array; copies share cache entries, so the next in-place update of that array (`state.pos += ...` in h2_flow) silently changes the value cached in the copies - e.g. the previous state's constraint Jacobian inside the constrained leapfrog step, which then is no longer reversible", node=st, file=d.file)
+        if not stores:
+            raise AnalysisError(f"{dname}: no store into the state cache found")
+    return r
+
+
 def run(rep, program: Program, tier: str) -> None:
     rep.explanation = (
         "Static effect analysis of the cache protocol: for every concrete System class the "
@@ -1212,5 +1256,6 @@ def run(rep, program: Program, tier: str) -> None:
     from . import stateproto
 
     rep.isolate(stateproto.rule, rep, program, tier, PROP, "R11", "transparent")
+    rep.isolate(rule_r12, rep, program)
     rep.extra["callsites_resolved"] = se.resolved_calls
     rep.extra["callsites_unresolved"] = len(se.unresolved)
